@@ -739,8 +739,14 @@ def wrap_numbers(input_dict, name):
     """Given an `input_dict` and a function `name`, adjust the numbers
     which "wrap" (restart from zero) across different calls by adding
     "old value" to "new value" and return an updated dict.
+    `input_dict` can also be a callable returning the dict: it gets
+    called while holding the lock, so that concurrent callers process
+    their numbers in the same order in which they retrieved them (else
+    older numbers processed after newer ones look like a wrap).
     """
     with _wn.lock:
+        if callable(input_dict):
+            input_dict = input_dict()
         return _wn.run(input_dict, name)
 
 
